@@ -23,15 +23,15 @@ import (
 //	lifetime : ConnLifetime (the expiry timer lands while the command is in flight when startAt is just before it)
 type c03cfg struct {
 	keepalive time.Duration // >0: keep-alive pings of the connection are enabled with this period
-	name     string
-	api      string // do | multi (APPEND a, APPEND b) | txn (MULTI, APPEND, EXEC)
-	callers  int
-	always   bool
-	fault    bool
-	delay    time.Duration
-	lifetime time.Duration
-	startAt  time.Duration
-	retry    bool // DisableRetry=false (retries must still not re-send non-retryable commands)
+	name      string
+	api       string // do | multi (APPEND a, APPEND b) | txn (MULTI, APPEND, EXEC)
+	callers   int
+	always    bool
+	fault     bool
+	delay     time.Duration
+	lifetime  time.Duration
+	startAt   time.Duration
+	retry     bool // DisableRetry=false (retries must still not re-send non-retryable commands)
 }
 
 func c03body(c c03cfg) func(x *vsched.Exec) {
